@@ -6,6 +6,15 @@ processes.  One model step = one *visible operation* (queue put/get/qsize, event
 acquire/release, read/write of `_sending_work` / `_data_cnt`, start/join) together with the thread-local code that follows
 it up to the next visible operation — exactly the scheduling points of the controlled scheduler that runs the real code.
 
+`Cfg.joinTimeout`: the pool was built with a finite `join_timeout`.  `p.join(timeout=self.join_timeout)` in
+`ReplaceWorkerThread.run` and in `FunctorPool.__exit__` then returns after the timeout whether the worker has exited or not
+(`RPc.join`, `CPc.exitJoin` are enabled in both cases), and the `end()` of a retiring worker — the `finally:` of `run`, AFTER
+`replace_queue.put(self.wid)` — is a step of its own (`WPc.ending`; the controlled scheduler announces it as `end W<wid>`), so
+that the successor can be started, and `__exit__` can return, while the retired worker is still running.  Only the retiring
+exit goes through `.ending`: the other exits (stop order, `begin()` / functor raising) post nothing anybody could observe
+before the exit, so they stay one step.  With `joinTimeout = false` (`join_timeout=None`) the model is the former one, step
+for step.
+
 Chunks are represented by their index; applying the functor, pulling the next chunk from the input iterator, the reorder
 `Buffer` and yielding to the caller are thread-local.  Worker faults (`begin()` raises, the functor raises at an item)
 are explicit alternatives of the worker program selected by the configuration.
@@ -38,6 +47,8 @@ structure Cfg where
   beginFault : List Nat         -- wids whose `begin()` raises
   itemFault  : List (Nat × Nat) -- (wid, k): the functor of worker `wid` raises at its k-th chunk (0-based)
   readyMid  : Bool := false     -- caller invokes `until_all_ready()` in EVERY call, right after the call's first result
+  joinTimeout : Bool := false   -- the pool was built with a finite `join_timeout`: `p.join(timeout=…)` in the replace thread
+                                -- and in `__exit__` returns after the timeout whether the worker has exited or not
   deriving Repr
 
 /-- program counters of the consumer -/
@@ -98,6 +109,7 @@ inductive WPc
   | get                       -- `work_queue.get()`
   | lockAcq | putNowait | lockRel | putBlock
   | retire                    -- `replace_queue.put(wid)`
+  | ending                    -- (`Cfg.joinTimeout`) the wid has been posted; `end()` of the `finally:` is still to run
   | exited
   deriving DecidableEq, Repr
 
@@ -371,7 +383,9 @@ def stepC (s : St) : Option St :=
     match s.procs[i]? with
     | none => none
     | some wid =>
-      if workerExited s wid then some { s with cpc := exitJoinFrom s (s.procs.length + 1) (i + 1) } else none
+      -- `p.join(timeout=self.join_timeout)`: with a finite timeout the loop goes on whether the worker has exited or not
+      if workerExited s wid || s.cfg.joinTimeout then some { s with cpc := exitJoinFrom s (s.procs.length + 1) (i + 1) }
+      else none
   | .midReady i wid =>
     -- `p.begin_finished.wait()` for the fetched `p`; then the iterator's `next()`: `procs[i + 1]` of the live list
     match getWorker s wid with
@@ -415,7 +429,9 @@ def stepR (s : St) : Option St :=
     | none :: r => some { s with replQ := r, rpc := .idle, rAlive := false }
     | some wid :: r => some { s with replQ := r, rpc := .join wid }
   | .join wid =>
-    if workerExited s wid then
+    -- `p.join(timeout=self.pool.join_timeout)`: blocks until the worker has exited (`join_timeout=None`), or returns after
+    -- the timeout whatever the worker does (`Cfg.joinTimeout`); the successor is created and started in both cases
+    if workerExited s wid || s.cfg.joinTimeout then
       -- create the successor, `_init_process`, `procs[idx] = p` (thread-local)
       let nw := s.widCounter
       some { s with workers := s.workers ++ [mkWorker s.cfg nw], widCounter := nw + 1,
@@ -471,7 +487,14 @@ def stepW (s : St) (wid : Nat) : Option St :=
         else
           let w := { w with full := false, held := none, done := w.done + 1, quota := w.quota.map (· - 1) }
           some (setWorker { s with resQ := s.resQ ++ [some i] } (workerLoopTop s.cfg.factory w))
-    | .retire => some (setWorker { s with replQ := s.replQ ++ [some wid] } (workerExit w false))
+    | .retire =>
+      -- `replace_queue.put(self.wid)`, then the `finally: self.end()` and the process exits.  With `join_timeout=None`
+      -- nobody can observe the time between the put and the exit (the replace thread joins the process), so it is one
+      -- step; with a finite timeout (`Cfg.joinTimeout`) the join of the replace thread may return while `end()` is still
+      -- running: `end()` and the exit are a step of their own (`.ending`)
+      if s.cfg.joinTimeout then some (setWorker { s with replQ := s.replQ ++ [some wid] } { w with pc := .ending })
+      else some (setWorker { s with replQ := s.replQ ++ [some wid] } (workerExit w false))
+    | .ending => some (setWorker s (workerExit w false))
 
 def step (s : St) : Tid → Option St
   | .c => stepC s
